@@ -54,7 +54,12 @@ func c02(c *q.Ctx) {
 		utxo + "MakeUtxo":                  "loaded from the persisted total at open",
 		utxo + "NewUtxo":                   "constructor",
 		utxo + "(*UtxoVM).UpdateUtxoTotal": "the only mutator",
+		utxo + "(*UtxoVM).ReloadTotal":     "re-read from the meta table after an operation failed before its batch was written",
 	}, "the in-memory total has one mutator")
+	if rt := c.Fn(utxo + "(*UtxoVM).ReloadTotal"); rt != nil {
+		c.StoreIs(rt, "UtxoVM.utxoTotal", "big.NewInt(0){SetBytes(i:Database.Get(p0.metaHandle.MetaTable,\"xtotal\")#0)}", 1, "what is re-installed is the persisted total (or zero when none was written yet)")
+		c.WhoCalls("UtxoVM.ReloadTotal", map[string]string{"bcs/ledger/xledger/state::(*State).ClearCache": "cache invalidation after a failed operation"}, "the total is re-read only as part of invalidating the caches")
+	}
 	if up := c.Fn(utxo + "(*UtxoVM).UpdateUtxoTotal"); up != nil {
 		c.ArgIs(up, "Batch.Put", 1, "*big.(*Int).Bytes(p0.utxoTotal)*", 1, "the persisted total is the in-memory total")
 		c.Before(up, q.ToCall("Batch.Put"), q.ToReturn(), "every change of the in-memory total is staged in the caller's batch, in both directions")
